@@ -269,7 +269,7 @@ def run(chk):
     chk.rule("R19.1", "Lambert: Newton update, exit polarity, Stumpff functions, geometry, Lagrange coefficients")
     chk.rule("R19.2", "LTAN/RAAN inverse; sun-synchronous relation and its three arms; Walker spacing and phasing (term algebra)")
     chk.rule("R19.3", "beta angle and B-plane by construction")
-    r19_1(chk)
-    r19_2(chk)
-    r19_3(chk)
+    chk.guard(r19_1, chk)
+    chk.guard(r19_2, chk)
+    chk.guard(r19_3, chk)
     chk.assume("Curtis, Orbital Mechanics for Engineering Students §5.3 (universal-variable Lambert); first-order J2 node rate; Walker t/p/f with p | t")
